@@ -121,8 +121,8 @@ func ZZ_C19_Distribution() {
 		totalCom.Add(totalCom, t.ValCommission.Amount.BigInt())
 		totalFee.Add(totalFee, t.Fee.Amount.BigInt())
 	}
-	T := zzConv(dec, 18, totalCom)  // commission collected, hub units
-	F := zzConv(dec, 18, totalFee)  // fees collected, hub units
+	T := zzConv(dec, 18, totalCom)                                    // commission collected, hub units
+	F := zzConv(dec, 18, totalFee)                                    // fees collected, hub units
 	toHub := func(x *big.Int) *big.Int { return zzConv(mdec, 18, x) } // Minter external units -> hub units (floor)
 	out := zzPoolOf(k, ctx, "minter")
 	paidCom, paidFee := new(big.Int), new(big.Int)
